@@ -111,7 +111,7 @@ pub fn run(ctx: &Ctx, ev: &mut Ev) {
     if ctx.want("encenum") && !tiny {
         let mut alpha = crate::alpha::SCALARS_SMALL.to_vec(); alpha.push(0xD800); alpha.push(0xDC00);
         let sp = EncSpace { encs: crate::alpha::encoder_families(), alpha, maxlen: 2, src16s: vec![false, true], vec_sinks: vec![false, true], repls: vec![false, true],
-            cap_offsets: vec![vec![0], vec![1], vec![2], vec![3], vec![5]], last_seps: vec![false, true], stride: if th { 1 } else { 2 }, fills: vec![0xA5] };
+            cap_offsets: vec![vec![0], vec![1], vec![2], vec![3], vec![5]], last_seps: vec![false, true], stride: if th { 1 } else { 2 }, fills: vec![0xA5], per_encoder: true };
         ev.note(format!("encenum: {}", sp.describe()));
         enum_enc(ctx, ev, &sp, |case, _ng, ev| { let tr = ev.case(); let out = drv.run_enc(case, ev); if tr { println!("TRACE {} | calls: {} | fails: {:?}", case.describe(), fmt_calls(&out.calls), out.fails); } judge_enc(ev, case, &out); ev.nontrivial_enum(); });
     }
